@@ -235,8 +235,10 @@ def _run_schedule(case):
         for t in cancelled:
             key_sn = t.args[0][1]
             for (pt, who) in fwd.get(key_sn, []):
-                if pt > t.cancel_point and getattr(t, "fire_point", -1) > t.cancel_point:
-                    vs.append(violation(ID, "C15/cbf-sent-after-cancel-completed", "copy of SN %d: cancel() returned at point %d, timer function started at point %d and sent at %d" % (key_sn, t.cancel_point, t.fire_point, pt)))
+                # cancel() is only called by the duplicate handler after it took the copy out of the buffer: from then on the copy
+                # must not go out, whether the timer function had already started or not
+                if pt > t.cancel_point:
+                    vs.append(violation(ID, "C15/cbf-sent-after-cancel-completed", "copy of SN %d: cancel() returned at point %d, timer function started at point %d and sent at %d" % (key_sn, t.cancel_point, getattr(t, "fire_point", -1), pt)))
         for tag, pts in guc_tags.items():
             if len(pts) > 1:
                 vs.append(violation(ID, "C15/buffered-guc-sent-twice", "unicast request %r to the looked-up destination sent %d times (points %r)" % (tag, len(pts), pts)))
